@@ -7,8 +7,8 @@
    bytes; "in range" (macr < 2^48, ipr < 2^32, cfg_rng, event_rng) is what makes the two views coincide, and it
    is an invariant of every run whose inputs are (run_rng). *)
 From PV Require Import Base.Prelude Base.Slice Model.ArpSpoof Spec.ArpSpoof
-  Proofs.ArpSpoof Proofs.ArpSpoofLoops Proofs.ArpSpoofRx Proofs.ArpSpoofGlue.
-From PV Require Model.SendBase Model.SendNdp Spec.SendRef Model.ViewsBase Model.Views Model.Tables.
+  Proofs.ArpSpoof Proofs.ArpSpoofLoops Proofs.ArpSpoofRx Proofs.ArpSpoofGlue Proofs.ArpSpoofOffer.
+From PV Require Model.SendBase Model.SendNdp Spec.SendRef Model.ViewsBase Model.Views Model.Tables Proofs.TablesRefine.
 Open Scope N_scope.
 
 (* a frame record pushed through SEND's RequestRaw / reply on ANY pooled buffer content, read back by SEND's
@@ -130,3 +130,19 @@ Theorem C13_probe_reject_reads_tables : forall c s t p,
   else (if sp_asks_router c p && hunted s (psmac p) then RxQueue (spoof_reply c p) else RxNone).
 Proof. exact probe_reject_reads_tables. Qed.
 Print Assumptions C13_probe_reject_reads_tables.
+
+(* the last DHCP event decides: after the confirmation DHCPv4Update(m, y) the offer the handler reads for m is y,
+   in every state of TABLES' step model of the session (its invariant InvR holds in every state reachable from
+   NewSession, second statement): an earlier offer of another address is not outstanding any more, whether the
+   client was unknown, offline or online *)
+Theorem C13_update_clears_offer : forall c s m y name now,
+  Proofs.TablesRefine.InvR s -> y <> 0 ->
+  tables_offer (fst (Model.Tables.step c s (Model.Tables.DHCPv4Update m (Model.Tables.IP4 y) name now))) m = Some y.
+Proof. exact update_clears_offer. Qed.
+Print Assumptions C13_update_clears_offer.
+
+Theorem C13_update_clears_offer_reachable : forall c now0 s0 ops m y name now,
+  Model.Tables.own_mac c <> Model.Tables.rt_mac c -> Model.Tables.new_session c now0 = Ok s0 -> y <> 0 ->
+  tables_offer (Model.Tables.run c s0 (ops ++ [Model.Tables.DHCPv4Update m (Model.Tables.IP4 y) name now])) m = Some y.
+Proof. exact update_clears_offer_reachable. Qed.
+Print Assumptions C13_update_clears_offer_reachable.
